@@ -405,7 +405,11 @@ def run_property(prop, tier, seed, replay=None):
         if part.cases is None and part.n is not None:
             # Hypothesis starts every run with its simplest examples: keep
             # at least 20 examples per shard so that shards are not trivial
-            nshards = max(1, min(nshards, part.n // 20 or 1))
+            # (an explicit Part.shards is honoured: slow parts need the cores)
+            if part.shards:
+                nshards = max(1, min(part.shards, part.n))
+            else:
+                nshards = max(1, min(nshards, part.n // 20 or 1))
         for sh in range(nshards):
             tasks.append((prop, tier, seed, pi, sh, nshards, known))
     ctxm = mp.get_context("fork")
